@@ -56,7 +56,10 @@ func c02Parse(cfg []string, p url.Parser, base, input string) *fw.Finding {
 	subject := cfgName(cfg) + " :: " + subj(input, base)
 	var u *url.Url
 	var err error
-	if pan := guarded(int64(4000*(len(input)+len(base)+32)), func() {
+	// budget: generous linear term plus a quadratic term - it detects non-termination, not super-linear cost
+	// (C20's business): e.g. repeated percent decoding is inherently quadratic on nested escapes
+	n := int64(len(input) + len(base))
+	if pan := guarded(4000*(n+32)+16*n*n, func() {
 		if base == "" {
 			u, err = p.Parse(input)
 		} else {
@@ -71,7 +74,7 @@ func c02Parse(cfg []string, p url.Parser, base, input string) *fw.Finding {
 	if u == nil {
 		return fw.F("c02:nil-url-nil-error", subject, "config [%s]: parse(base=%q, input=%q) returned (nil, nil)", cfgName(cfg), base, input)
 	}
-	if pan := guarded(400000+int64(4000*len(input)), func() {
+	if pan := guarded(400000+4000*n+16*n*n, func() {
 		_ = impl.ObserveFull(u)
 		_ = u.ValidationErrors()
 		sp := u.SearchParams()
@@ -101,7 +104,11 @@ var c02Starts = []string{"http://u:p@h.test:81/d1/d2/f?q=1&r=2#frag", "file:///C
 func c02Hist(cfg []string, p url.Parser, start string, ops []Op) *fw.Finding {
 	subject := cfgName(cfg) + " :: " + histString(start, ops)
 	var f *fw.Finding
-	pan := guarded(2000000, func() {
+	var vlen int64
+	for _, o := range ops {
+		vlen += int64(len(o.A) + len(o.B))
+	}
+	pan := guarded(2000000+4000*vlen+16*vlen*vlen, func() {
 		var u *url.Url
 		var err error
 		if start == "<NewUrl>" {
@@ -186,7 +193,7 @@ func init() {
 		Rule: "bounded exhaustive exploration over inputs x configurations x histories on an instrumented build whose per-call executed-statement budget is a deterministic non-termination detector: " +
 			"(A) every option subset of size <= d of the 32 public options (url + canonicalizer, parameterised ones with fixed arguments) + 4 predefined profiles x an input core (byte alphabet incl. invalid UTF-8 / NUL, Sigma^<=2 after 10 prefixes, host menus) as input and with bases; " +
 			"(B) all 2^14 vectors of the two-valued parser options x a trigger core; (C) default + every single option + profiles x Sigma_B^<=3 after 10 prefixes; (D) every setter with every value of Sigma_B^<=2 on 7 start URLs under each single option/profile; " +
-			"(E) all histories of depth <= 2 over ~170 operations (setters, list mutators, Iterate, SetSearchParams, clone, resolve, reparse) from 8 starts incl. Parser.NewUrl() under each single option/profile. " +
+			"(F) 30 repetition families x 10 prefixes at 4 000 repetitions as input, against a long base and as value of every setter; (E) all histories of depth <= 2 over ~170 operations (setters, list mutators, Iterate, SetSearchParams, clone, resolve, reparse) from 8 starts incl. Parser.NewUrl() under each single option/profile. " +
 			"Oracle: no panic, statement budget never exceeded, (URL with working getters / SearchParams / Clone / resolve) xor error. non-trivial = cases whose parse succeeds (post-parse calls exercised); counted in the largest space",
 		Assume: []string{"BasicParser is driven only in the argument combinations the library itself uses; nil *Url / nil option arguments are outside 'any argument strings'",
 			"user-supplied host callbacks limited to trim-dots / upper-case / constant / empty"},
@@ -355,6 +362,44 @@ func c02Body(c *fw.Ctx) {
 					}
 					report(f, "c02-hist", cfg, []string{st}, ops)
 				})
+			}
+		}
+	}
+	// very long inputs (the statement quantifies over them explicitly): every repetition family of the menu at
+	// 4 000 repetitions, as input, as base + reference and as setter value, under default / profiles / key options.
+	// (Growth of cost is C20's business; here only: returns, no panic, no stack exhaustion, budget not exceeded.)
+	c.Space("F-long-inputs")
+	longFrags := []string{"a", "/", "/a", "/..", "/./", "\\", "@", ":", "%", "%41", "%zz", "?", "#", "&a=b", "[", "]", ".", "a.", "1.", "0x1.", " ", "\t", "\x00", "\xff", "é", "xn--", "x/../", "%2e%2E/", "|", "C|/"}
+	longPre := []string{"", "http://", "http://h/", "http://h/?", "http://h/#", "foo://", "a:", "file:", "http://u:", "file:///"}
+	nLong := 4000
+	for _, cfg := range singles {
+		if len(cfg) > 0 && !strings.HasPrefix(cfg[0], "profile:") && !c.Thorough() && cfg[0] != "AcceptInvalidCodepoints" && cfg[0] != "LaxHostParsing" && cfg[0] != "CollapseConsecutiveSlashes" && cfg[0] != "PercentEncodeSinglePercentSign" && cfg[0] != "RepeatedPercentDecoding" && cfg[0] != "SortQuery(keys)" {
+			continue
+		}
+		p := BuildParser(cfg)
+		for _, fr := range longFrags {
+			for _, pre := range longPre {
+				if !c.Mine() || c.Expired() {
+					continue
+				}
+				in := pre + strings.Repeat(fr, nLong)
+				c.Eval()
+				f := c02Parse(cfg, p, "", in)
+				if f == nil {
+					c.Nontrivial()
+				}
+				report(f, "c02-parse", cfg, []string{"", in}, nil)
+				if pre == "" {
+					c.Eval()
+					f := c02Parse(cfg, p, "http://h/"+strings.Repeat("d/", 2000), in)
+					report(f, "c02-parse", cfg, []string{"http://h/" + strings.Repeat("d/", 2000), in}, nil)
+					for _, setter := range setterOrder {
+						c.Eval()
+						ops := []Op{{Kind: setter, A: in}}
+						f := c02Hist(cfg, p, "http://u:p@h:81/p?q#f", ops)
+						report(f, "c02-hist", cfg, []string{"http://u:p@h:81/p?q#f"}, ops)
+					}
+				}
 			}
 		}
 	}
